@@ -175,7 +175,7 @@ REGISTRY = {
         "trusted_base": COMMON_TRUST, "assumptions": [EXTERNAL, "flips inside compressed payloads / chunk type / length bytes are decided per file by enumeration, not by theorem (2^-32 CRC events)"],
     },
     "C12": {
-        "level": "proof", "modules": ["SkaModel.Props.C12", "SkaModel.Props.C12Spec"], "gen": ["C12"],
+        "level": "proof", "modules": ["SkaModel.Props.C12", "SkaModel.Props.C12Spec"], "gen": ["C12"], "cli": [cli.c12_cli],
         "rule": "paired FASTQ read sets drawn from a small genome on both strands with errors and N, lengths k..3k, qualities at min_qual-1/min_qual/min_qual+1, min-count 1-6 (counts hit c-1, c, c+1 across files and strands), min-qual 0-40, three quality rules, k in {5..63}, both strand modes, self-reverse-complement arms; non-trivial = distinct case lines yielding at least one k-mer",
         "trusted_base": COMMON_TRUST, "assumptions": [EXTERNAL, "exactness is stated under the no-collision hypothesis (ntHash injective on the observed k-mers, no Bloom false positive among them); the collision rate is measured, not proved"],
     },
